@@ -56,22 +56,28 @@ BOUNDS = {
         "layouts": 72,
         "tails": 2,
         "paths": 4,
-        "html_error_template": "string path",
-        "program_weight": 2,
-        "program_weight_core_faults": 3,
+        "html_error_template": "string path, LF documents without tail",
+        "richtraceback_and_text_error_template": "string and file paths (all four thorough)",
+        "programs": [
+            {"weights": [0, 1, 2], "node_kinds": 13, "faults": "all"},
+            {"weights": [3], "node_kinds": 6, "faults": "core"},
+        ],
     },
     "thorough": {
         "layouts": 72,
         "tails": 3,
         "paths": 4,
-        "html_error_template": "all paths",
-        "program_weight": 3,
-        "program_weight_core_faults": 4,
+        "html_error_template": "all paths, all documents",
+        "programs": [
+            {"weights": [0, 1, 2, 3], "node_kinds": 14, "faults": "all"},
+            {"weights": [4], "node_kinds": 9, "faults": "core"},
+        ],
     },
 }
 
 A = "\x01"  # where the offending construct begins
 B = "\x02"  # somewhere on the line that holds the offending Python
+ALT = "\x03"  # a second place at which the offending construct may be taken to begin
 
 POOL_IDS = [("x", "y", "z"), ("foo", "bar", "baz"), ("alpha", "b2", "c_3"), ("item", "row", "col")]
 POOL_TXT = [
@@ -111,8 +117,8 @@ def fault_table(seed):
     F = []
 
     def add(name, group, snip, fixed, family=None, ctx="any", forbid=(), base=True):
-        body = snip.replace(A, "").replace(B, "")
-        first = snip.split("\n")[0].replace(A, "").replace(B, "")
+        body = snip.replace(A, "").replace(B, "").replace(ALT, "")
+        first = snip.split("\n")[0].replace(A, "").replace(B, "").replace(ALT, "")
         cline = [l for l in snip.split("\n") if A in l][0]
         F.append(
             {
@@ -219,7 +225,7 @@ def fault_table(seed):
     add("block_filter", "py", A + '<%block filter="' + B + 'h +* u"></%block>', '<%block filter="h, u"></%block>')
     add("text_filter", "py", A + '<%text filter="' + B + 'h +* u">t</%text>', '<%text filter="h, u">t</%text>')
     add("page_filter", "py", A + '<%page expression_filter="' + B + 'h +* u"/>', '<%page expression_filter="h, u"/>')
-    add("def_cached", "py", A + '<%def name="f()" cached="${' + B + 'a +* b}"></%def>', '<%def name="f()" cached="${True}"></%def>')
+    add("def_cache_key", "py", A + '<%def name="f()" cached="True" cache_key="${' + B + 'a +* b}"></%def>', '<%def name="f()" cached="True" cache_key="${a + b}"></%def>')
     # ---- Python faults that CPython reports from its compiler stage rather than its parser
     late = "syntax-error-found-by-the-bytecode-compiler"
     add("late_break", "py", A + "<% " + B + "break %>", "<% pass %>", family=late, ctx="noctl")
@@ -233,9 +239,10 @@ def fault_table(seed):
     add("unterm_expr", "struct", A + "${" + V, "${" + V + "}", forbid=ue + ("|",))
     add("unterm_expr_ml", "struct", A + "${(" + V + ",\n " + W, "${(" + V + ",\n " + W + ")}", forbid=ue + ("|",))
     add("unterm_expr_string", "struct", A + "${'abc", "${'abc'}", forbid=("'",))
-    add("unterm_expr_filter", "struct", A + "${" + V + " | h", "${" + V + " | h}", forbid=ue, family="unterminated-expression-in-filter-part")
-    add("unterm_expr_filter_nl", "struct", A + "${" + V + "\n | h", "${" + V + "\n | h}", forbid=ue,
-        family="unterminated-expression-in-filter-part")
+    # the filter list is scanned on its own; mako's test suite pins the position of the '|' for it
+    # (test_unterminated_expression_filter), the statement says "where the construct begins": both accepted
+    add("unterm_expr_filter", "struct", A + "${" + V + " " + ALT + "| h", "${" + V + " | h}", forbid=ue)
+    add("unterm_expr_filter_nl", "struct", A + "${" + V + "\n " + ALT + "| h", "${" + V + "\n | h}", forbid=ue)
     up = ("%>",)
     add("unterm_py", "struct", A + "<% " + V + " = 1", "<% " + V + " = 1 %>", forbid=up)
     add("unterm_py_ml", "struct", A + "<%\n  " + V + " = 1\n", "<%\n  " + V + " = 1\n%>", forbid=up)
@@ -347,8 +354,15 @@ def locate(marked, eol="\n"):
     """marked document -> (text, L, C, Lp) from the planter's marks, counting LF."""
     if eol != "\n":
         marked = marked.replace("\n", eol)
+    alt = None
+    i3 = marked.find(ALT)
+    if i3 >= 0:
+        marked = marked[:i3] + marked[i3 + 1 :]
+        i3 -= 1  # the mark A precedes it
+        alt = i3
     i1 = marked.index(A)
     marked = marked[:i1] + marked[i1 + 1 :]
+    assert alt is None or alt >= i1
     i2 = marked.find(B)
     if i2 >= 0:
         marked = marked[:i2] + marked[i2 + 1 :]
@@ -359,14 +373,17 @@ def locate(marked, eol="\n"):
     L = 1 + marked.count("\n", 0, i1)
     C = i1 - marked.rfind("\n", 0, i1)
     Lp = 1 + marked.count("\n", 0, i2)
-    return marked, L, C, Lp
+    if alt is not None:
+        return marked, L, C, Lp, (1 + marked.count("\n", 0, alt), alt - marked.rfind("\n", 0, alt))
+    return marked, L, C, Lp, None
 
 
-def expectation(fault, L, C, Lp):
+def expectation(fault, L, C, Lp, alt=None):
     cols = [C]
     if fault["ctl"] and C != 1:
         cols = [1, C]
     return {
+        "alt": list(alt) if alt else None,
         "name": fault["name"],
         "family": fault["family"],
         "group": fault["group"],
@@ -382,9 +399,9 @@ def build_a(layout, fault, tail, seed):
     if fault["lead"] and layout[3] == "after3":
         return None
     pre = layout_prefix(layout, seed)
-    text, L, C, Lp = locate(pre + fault["snip"] + tail, layout[1])
+    text, L, C, Lp, alt = locate(pre + fault["snip"] + tail, layout[1])
     base = (pre + fault["fixed"] + tail).replace("\n", layout[1])
-    return text, expectation(fault, L, C, Lp), base
+    return text, expectation(fault, L, C, Lp, alt), base
 
 
 # --------------------------------------------------------------------------
@@ -408,8 +425,12 @@ CONTAINERS = {
     "BLK": (["<%block>"], ["</%block>"]),
     "CALL": (['<%%call expr="c%d()">'], ["</%call>"]),
 }
-KINDS_QUICK = ["T", "T3", "E", "EM", "PY", "CM", "DOC", "CONT", "IF", "FOR", "DEF", "BLK", "CALL"]
-KINDS_THOROUGH = KINDS_QUICK + ["IFE"]
+KINDS = {
+    6: ["T", "EM", "PY", "CONT", "IF", "DEF"],
+    9: ["T", "EM", "PY", "DOC", "CONT", "IF", "FOR", "DEF", "CALL"],
+    13: ["T", "T3", "E", "EM", "PY", "CM", "DOC", "CONT", "IF", "FOR", "DEF", "BLK", "CALL"],
+    14: ["T", "T3", "E", "EM", "PY", "CM", "DOC", "CONT", "IF", "FOR", "DEF", "BLK", "CALL", "IFE"],
+}
 CTL_KINDS = ("IF", "IFE", "FOR")
 TAG_KINDS = ("DEF", "CALL", "BLK")
 
@@ -498,8 +519,8 @@ def program_docs(forest, faults):
         for f in faults:
             if not applicable_b(f, anc, rest):
                 continue
-            text, L, C, Lp = locate(head + f["snip"] + "\n" + rest)
-            yield text, expectation(f, L, C, Lp)
+            text, L, C, Lp, alt = locate(head + f["snip"] + "\n" + rest)
+            yield text, expectation(f, L, C, Lp, alt)
 
 
 # --------------------------------------------------------------------------
@@ -623,6 +644,8 @@ def judge(text, exp, path, fname, obs):
         out.append(("source", "", "exception.source is not the decoded template text", text, obs["source"]))
     located = exp["group"] != "eof"
     line_ok = True
+    if located and exp.get("alt") and [obs["lineno"], obs["pos"]] == list(exp["alt"]):
+        exp = dict(exp, lineno=exp["alt"][0], cols=[exp["alt"][1]])  # the other admissible beginning
     if located:
         if obs["lineno"] != exp["lineno"]:
             line_ok = False
@@ -672,7 +695,7 @@ def sig_of(oracle, fam, detail):
     return "%s:%s%s" % (oracle, fam, (":" + detail) if detail else "")
 
 
-def check_doc(text, exp, paths, html_paths, st, kind, outcome_extra=(), light=False):
+def check_doc(text, exp, paths, html_paths, st, kind, outcome_extra=(), light=False, light_paths=()):
     """run one document through the given paths and judge it"""
     e_ = env()
     fname = None
@@ -683,7 +706,9 @@ def check_doc(text, exp, paths, html_paths, st, kind, outcome_extra=(), light=Fa
             f.write(text.encode("utf-8"))
     seen = {}
     trivial = exp["lineno"] == 1 and exp["C"] == 1
+    light_all = light
     for p in paths:
+        light = light_all or p in light_paths
         st.states += 1
         st.traces += 1
         if not trivial:
@@ -778,7 +803,7 @@ def run_job(job):
 
 def run_a(tier, seed, F, sh, ns, st):
     seen = set()
-    html_paths = ("string",) if tier == "quick" else PATHS
+    quick = tier == "quick"
     skipped = 0
     for layout in layouts():
         for f in F:
@@ -793,7 +818,8 @@ def run_a(tier, seed, F, sh, ns, st):
                 seen.add(text)
                 if f["base"]:
                     check_base(base, st, "A", f["name"])
-                check_doc(text, exp, PATHS, html_paths, st, "A")
+                html_paths = PATHS if not quick else ("string",) if tail == "" and layout[1] == "\n" else ()
+                check_doc(text, exp, PATHS, html_paths, st, "A", light_paths=("lookup", "moddir") if quick else ())
                 if len(seen) % 499 == 1:
                     st.sample({"space": "A", "fault": f["name"], "layout": list(layout), "text": text, "expect": {"lineno": exp["lineno"], "pos": exp["cols"]}})
     st.extra["A_documents"] = len(seen)
@@ -804,15 +830,14 @@ def run_a(tier, seed, F, sh, ns, st):
 
 
 def run_b(tier, seed, F, sh, ns, st):
-    b = BOUNDS[tier]
-    kinds = KINDS_QUICK if tier == "quick" else KINDS_THOROUGH
-    memo = {}
     corefaults = [f for f in F if f["core"]]
     seen = set()
     nprog = 0
     idx = 0
-    for w in range(0, b["program_weight_core_faults"] + 1):
-        faults = F if w <= b["program_weight"] else corefaults
+    stages = [(w, KINDS[stg["node_kinds"]], F if stg["faults"] == "all" else corefaults) for stg in BOUNDS[tier]["programs"] for w in stg["weights"]]
+    memos = {}
+    for w, kinds, faults in stages:
+        memo = memos.setdefault(len(kinds), {})
         for forest in iter_forests(w, kinds, memo):
             idx += 1
             if idx % ns != sh:
@@ -853,8 +878,8 @@ def replay(case):
 
 LEVEL_TEXT = (
     "Every one of ~125 planted fault constructs (all classes of the statement, with line variants) is compiled behind each of 72 layout prefixes, "
-    "2-3 tails and through all four construction paths, and at every node boundary of every template program of weight <= 2 (3 thorough; core "
-    "faults one weight deeper); class, filename, source, lineno, pos, RichTraceback, text and html error templates and path agreement are "
+    "2-3 tails and through all four construction paths, and at every node boundary of every template program of weight <= 2 over 13 node kinds "
+    "(<= 3 over 14 kinds thorough; 23 core faults one weight deeper over 6 resp. 9 kinds); class, filename, source, lineno, pos, RichTraceback, text and html error templates and path agreement are "
     "compared with values computed by the planter. Complete within those bounds; no sampling."
 )
 LEVEL_NOTE = (
